@@ -56,6 +56,7 @@ def fuzz_run(prop, src, runs=1500000, max_len=2048):
 
 # ------------------------------------------------------------------------------------------------ C01
 PROPS["C01"] = dict(
+    technique='runtime monitoring: every input parsed by the real parser under ASan (AVX2) and in a production SSE build; online oracle = independent reference recogniser (accept/reject, fault class, offset bounds); enumerated + generated + mutated + libFuzzer inputs',
     title="Parse accepts exactly RFC 8259 and reports failure coherently",
     rule=("inputs: every byte string of length<=2, every length-3 string over a 24-byte JSON alphabet, length 4 (thorough: <=6) "
           "over a 12-byte alphabet, generated documents x leading pad 0..63, every prefix, every position x 33-byte palette "
@@ -105,6 +106,7 @@ def compare_digests(label, prefix=None):
 
 
 PROPS["C02"] = dict(
+    technique='runtime monitoring with sanitizers: ASan+LSan over Parse on arbitrary bytes for pool / adaptive / freeing / ledger allocators, heap-fill sweep (outcome digests must not depend on the fill byte), ledger allocator (exactly-once release), follow-up oracle on reused documents, forked-child stack monitor, libFuzzer',
     post=compare_digests("outcome-depends-on-heap-fill", prefix="asan-fill-"),
     title="Parse is total and memory-safe for every allocator kind",
     rule=("C01's unknown-validity corpus plus reuse histories (2-8 steps of Parse valid/invalid, mutation, move, Swap, "
@@ -125,6 +127,7 @@ PROPS["C02"] = dict(
 
 # ------------------------------------------------------------------------------------------------ C03
 PROPS["C03"] = dict(
+    technique="runtime monitoring: accessor-only read-back of every parsed document compared online with a reference parser's value (order, duplicates, number kind and bits), ASan and production AVX2/SSE/dispatch builds, libFuzzer",
     title="A successful Parse yields exactly the value the text denotes",
     rule=("generated valid texts (all kinds, depth<=5, duplicate keys in every 5th document, whitespace runs up to 200 bytes, "
           "random escapes/number spellings) x leading pad 0..63, container sizes around copy-unroll edges with every kind as "
@@ -145,6 +148,7 @@ PROPS["C03"] = dict(
 
 # ------------------------------------------------------------------------------------------------ C04
 PROPS["C04"] = dict(
+    technique='runtime monitoring: parsed number compared online with glibc strtod / exact integer arithmetic (oracle self-tested against from_chars and GMP), GMP audit of the conversion tables, libFuzzer on number spellings, ASan',
     title="Numbers parse to the exact integer or the correctly rounded double",
     rule=("number spellings by family: integers around 10^k/2^63/2^64; random and boundary doubles printed with 0..24 digits, %f, "
           "shortest; exact halfway points between adjacent doubles (from the exact long-double decimal expansion) and just-off-halfway; "
@@ -168,6 +172,7 @@ PROPS["C04"] = dict(
 
 # ------------------------------------------------------------------------------------------------ C07
 PROPS["C07"] = dict(
+    technique='runtime monitoring: F64toa output compared online with std::to_chars (shortest round-trip, self-tested from first principles) and read back with strtod; all 2^32 float values in the thorough tier; ASan + production builds',
     title="Finite doubles print as the shortest round-tripping decimal",
     rule=("doubles: all 2047 biased exponents x 14 significands (0,1,2,2^52-1,2^52-2,2^51, 8 random) both signs; subnormals 1..2000 "
           "and random; integer-valued doubles below/at/beyond 2^53; 10^k +-3 ulp for k=-324..308 (all table entries, the 1e21 and "
@@ -188,6 +193,7 @@ PROPS["C07"] = dict(
 
 # ------------------------------------------------------------------------------------------------ C08
 PROPS["C08"] = dict(
+    technique='runtime monitoring: U64toa / I64toa / Serialize of integer nodes compared online with exact decimal strings; digit-count boundaries, powers of two and ten, random 64-bit values; ASan + production builds',
     title="64-bit integers print as their exact decimal representation",
     rule=("U64toa/I64toa vs snprintf: values below 10^8 with stride 97 (thorough: every value) and, for each, 10^8+x, 10^16+x, "
           "10^16+x*10^8, x*10^8+(99999999-x) (both SSE kernels, both lanes) and -x; every 10^k and 2^k +-2; 64-bit extremes; random "
@@ -205,6 +211,7 @@ PROPS["C08"] = dict(
 
 # ------------------------------------------------------------------------------------------------ C09
 PROPS["C09"] = dict(
+    technique='runtime monitoring: Quote run on operands that end on the last mapped byte before a PROT_NONE guard page (production AVX2/SSE/dispatch builds, SIGSEGV handler) and on exact heap blocks under ASan; output compared online with a byte-wise model; table audit; decision-tape libFuzzer',
     title="String quoting is exact for all bytes and stays inside its buffers",
     rule=("internal::Quote and Node::SetString(ptr,len)+Serialize: every byte value at every position 0..95 of strings of 12 lengths "
           "0..130; dense/random/all-escape strings up to 300 bytes; for every length 0..200 five contents (no escape, escape last, "
@@ -228,6 +235,7 @@ PROPS["C09"] = dict(
 
 # ------------------------------------------------------------------------------------------------ C14
 PROPS["C14"] = dict(
+    technique='runtime monitoring: comparison kernels and member lookups run on operands placed against PROT_NONE guard pages (production builds) and exact heap blocks (ASan), results compared online with memcmp / a byte-wise model for every length and mismatch position; decision-tape libFuzzer',
     title="Member lookup compares keys by exact bytes for every length and address",
     rule=("InlinedMemcmpEq / InlinedMemcmp vs memcmp for every length 0..130 (thorough 300) x mismatch position {none, first, last, each "
           "side of 16/32-byte boundaries, the window a tail-overlap load does not cover, random} x operand a ending 0..64 bytes before "
@@ -248,6 +256,7 @@ PROPS["C14"] = dict(
 
 # ------------------------------------------------------------------------------------------------ C05
 PROPS["C05"] = dict(
+    technique='runtime monitoring: every literal decoded by the real parser as value, DOM key and on-demand key and compared online with a reference decoder; all 65536 escapes, surrogate matrix, every raw byte, every block offset; ASan, exact-size buffers, libFuzzer',
     title="String literals decode exactly per RFC 8259 escapes, wherever they sit",
     rule=("literal spellings: each of the 8 short escapes and 6 \\u classes at every offset 0..70 with 10 tail lengths; all 65536 single "
           "\\uXXXX in lower/upper/mixed hex; valid surrogate pairs (every high x 64 lows; thorough every pair); every high x 8 "
@@ -268,6 +277,7 @@ PROPS["C05"] = dict(
 
 # ------------------------------------------------------------------------------------------------ C10
 PROPS["C10"] = dict(
+    technique='runtime monitoring: on-demand result compared online with full parse + model pointer lookup (success iff resolves, slice inside input and equal value, error and empty slice otherwise); ASan and production AVX2/SSE/dispatch builds; libFuzzer',
     title="On-demand lookup equals full parsing plus pointer lookup",
     rule=("valid texts: 20 hand-built hazard shapes (empty containers followed by siblings, escaped/duplicate keys, strings holding "
           "brackets/quotes/backslashes) x pad 0..63 x blank runs up to 200 bytes; generated documents biased to those hazards x 4 "
@@ -289,6 +299,7 @@ PROPS["C10"] = dict(
 
 # ------------------------------------------------------------------------------------------------ C11
 PROPS["C11"] = dict(
+    technique='runtime monitoring with sanitizers and guard pages: on-demand scanning of arbitrary unpadded bytes placed on exact heap blocks (ASan) and against PROT_NONE pages (production builds, SIGSEGV handler); success implies slice and offset inside the input; libFuzzer',
     title="On-demand scanning of arbitrary unpadded input stays inside the input",
     rule=("byte strings: all of length<=2, every prefix of generated documents, 1-3 random mutations, truncated literals/tokens ending "
           "exactly at the end of buffers of block-edge lengths (0,1,15-17,31-33,63-67,127-130), hostile shapes, blank runs straddling "
@@ -314,6 +325,7 @@ PROPS["C11"] = dict(
 
 # ------------------------------------------------------------------------------------------------ C06
 PROPS["C06"] = dict(
+    technique='runtime monitoring: Serialize output checked online by a reference recogniser and re-parsed to the model value; write-buffer fill-level sweep; ASan, production and SSE-dispatch builds; decision-tape libFuzzer',
     title="Serialize output is valid JSON that parses back to an equal document",
     rule=("documents built by parsing generated texts and through the mutation API (arbitrary string bytes incl. NUL/0xff, const/copied "
           "strings and keys, 64-bit integer edges, finite doubles incl. extremes and -0.0, duplicate keys, empty containers as last "
@@ -338,6 +350,7 @@ PROPS["C06"] = dict(
 
 # ------------------------------------------------------------------------------------------------ C12
 PROPS["C12"] = dict(
+    technique='runtime monitoring: lock-step executable model (plain ordered containers) checked after every operation of generated histories, lookups and pointers included; pool (also small-chunk) and freeing allocators; ASan, UBSan subset, production AVX2/SSE/dispatch builds; decision-tape libFuzzer',
     title="The mutation API behaves like plain ordered containers",
     rule=("histories of 20..120 (thorough 400) operations drawn from Set*/SetString(copy|const)/SetArray/SetObject/AddMember(copy|nocopy)/"
           "RemoveMember/EraseMember(range)/MemberReserve/Reserve/PushBack/PopBack/Erase(pos|range)/Clear(+reuse)/assignment/"
@@ -364,6 +377,7 @@ PROPS["C12"] = dict(
 
 # ------------------------------------------------------------------------------------------------ C13
 PROPS["C13"] = dict(
+    technique='runtime monitoring: ledger allocator recording every Malloc/Realloc/Free (exactly-once release, no foreign free, nothing live at the end) under generated histories incl. move/swap/reparse/ParseSchema/lazy merge on valid and invalid texts; ASan+LSan; decision-tape libFuzzer',
     title="Every allocation is released exactly once; copies are independent",
     rule=("C12's operation generator on a ledger allocator (kNeedFree, every block recorded) extended with Parse of valid and invalid "
           "text, ParseOnDemand, document move construction/assignment, document Swap with a side document, deep copies kept alive "
@@ -386,6 +400,7 @@ PROPS["C13"] = dict(
 
 # ------------------------------------------------------------------------------------------------ C18
 PROPS["C18"] = dict(
+    technique='runtime monitoring: operator== / != compared online with a JSON value-equality model on generated pairs and triples (reflexive, symmetric, transitive, permutation-insensitive, number kinds, scalar overloads); ASan and production AVX2/SSE/dispatch builds; decision-tape libFuzzer',
     title="Document equality is JSON value equality",
     rule=("triples (a, b=variant(a), c=variant(b)) of generated duplicate-free values; variants: identical, members permuted at every depth, "
           "one leaf / key / number kind (1 vs 1.0, -0.0 vs 0.0, 2^63) / string length / container length changed, array reordered; each "
@@ -409,6 +424,7 @@ PROPS["C18"] = dict(
 
 # ------------------------------------------------------------------------------------------------ C19
 PROPS["C19"] = dict(
+    technique='runtime monitoring: ParseSchema result compared online with an executable merge model over a kind x kind matrix and generated (document, text) pairs with repeated application and hand-over by move/Swap; ledger allocator; ASan; libFuzzer',
     title="ParseSchema updates exactly the members the existing document declares",
     rule=("(existing document, valid text) pairs without duplicate keys: the full 11x11 kind matrix {null,bool,uint,int,double,string,[],"
           "array of scalars, array containing objects, {}, non-empty object} at the root and at a declared key between two untouched "
@@ -431,6 +447,7 @@ PROPS["C19"] = dict(
 
 # ------------------------------------------------------------------------------------------------ C20
 PROPS["C20"] = dict(
+    technique='runtime monitoring: UpdateLazy result checked online by a reference recogniser and compared with a model merge on reference-parsed trees; exact-size buffers; ASan and production AVX2/SSE/dispatch builds; libFuzzer',
     title="UpdateLazy is a faithful recursive object merge",
     rule=("(target, source) pairs of valid duplicate-free texts: the 9x9 root kind matrix (x whitespace, x nesting variants); sources "
           "derived from the target (overridden keys of any kind, nested objects recursed to depth 5, new keys in between and at the "
@@ -454,6 +471,7 @@ PROPS["C20"] = dict(
 
 # ------------------------------------------------------------------------------------------------ C16
 PROPS["C16"] = dict(
+    technique='runtime monitoring: recording base allocator + executable model of the pool (alignment, containment in a recorded chunk, disjointness, content stability, accounting, reference counting) checked after every operation of generated histories; ASan + production builds; decision-tape libFuzzer',
     title="The pool allocator hands out aligned, disjoint, stable blocks",
     rule=("histories of 50..500 (thorough 3000) operations {Malloc, Realloc (most recent block / any block / null / to zero), Clear, copy "
           "construct/assign a handle, move a handle, destroy a handle, Size/Capacity} on MemoryPoolAllocator<recording base, "
@@ -481,6 +499,7 @@ PROPS["C16"] = dict(
 # ------------------------------------------------------------------------------------------------ C17
 TSAN_ENV = {"TSAN_OPTIONS": "halt_on_error=0:exitcode=66:history_size=7:second_deadlock_stack=1:report_signal_unsafe=0"}
 PROPS["C17"] = dict(
+    technique='runtime monitoring with ThreadSanitizer: thread teams on own documents, on shared read-only documents, on a shared locked pool, and cold-start teams in forked children; every TSan report block is a violation; post-join result oracles; production-build post-join block checks',
     title="Independent and shared read-only documents are race-free",
     rule=("thread teams of 8 or 16 under ThreadSanitizer: W1 every thread parses, mutates (AddMember/CreateMap/RemoveMember/PushBack/"
           "Erase/operator[] on a missing key of its own document), serialises, on-demand-extracts, UpdateLazy-s and ParseSchema-s its "
@@ -547,6 +566,7 @@ def _c15_runs():
 
 
 PROPS["C15"] = dict(
+    technique='runtime monitoring: one deterministic corpus run in seven builds (AVX2, SSE, dispatch, dispatch forced to SSE via hook H1; ASan and production); offline checker compares per-case outcome digests across builds',
     title="All supported x86 build configurations compute identical results",
     post=compare_outcome_files,
     rule=("one deterministic corpus (generated valid documents with paths and second texts, 1-3 mutations of documents, string literals "
